@@ -17,7 +17,7 @@ RULE = ('BFS over all ordered registration histories without repetition of up to
         'registrations for another layer type; in every state every layer spec from the truth table of the constraints '
         '(+ an unregistered layer type) is looked up on the real CostSpec and compared with the reference rule; '
         'non-trivial = a (history, spec) pair with at least one registered pattern of the looked-up type')
-ASSUMPTIONS = ['constraints are pure predicates of the spec', 'cost functions are compared by the value they return (each is a distinct constant)',
+ASSUMPTIONS = ['constraints are pure predicates of the spec', 'every history is run twice: lookups only at the end, and lookups interleaved after every registration', 'cost functions are compared by the value they return (each is a distinct constant)',
                'duplicate registrations of the same pattern are outside the statement and not generated']
 
 
@@ -121,8 +121,9 @@ def _ref(history, pats, spec, default):
     return ('raise', 'conflict')
 
 
-def _build(ltype, default, history, foreign):
-    """fresh real CostSpec with the history replayed on it"""
+def _build(ltype, default, history, foreign, probe=None):
+    """fresh real CostSpec with the history replayed on it; with `probe` (a list of specs) every spec is looked up on the SAME object
+    after every registration, i.e. lookups are interleaved with registrations"""
     from plinio.cost import CostSpec
     pats = _patterns(ltype)
     cs = CostSpec(shared=True, default_behavior=default)
@@ -133,6 +134,10 @@ def _build(ltype, default, history, foreign):
             # interleave registrations for an unrelated layer type (always-true constraint and unconstrained)
             cs[(other, (lambda s: True) if i % 2 == 0 else None)] = _mk_fn(f'foreign{i}')
         cs[(T, pats[p])] = _mk_fn(p)
+        if probe is not None:
+            for _, spec in probe:
+                _lookup(cs, T, spec)
+            _lookup(cs, nn.ConvTranspose2d, probe[0][1])
     return cs, pats, T
 
 
@@ -160,12 +165,20 @@ def run_case(case, seed):
             seen.add(hist)
             states += 1
             cs, pats, T = _build(ltype, default, hist, foreign)
-            transitions += len(hist) * (2 if foreign else 1)
+            # the same history with lookups interleaved after every registration (the answer must not depend on earlier lookups)
+            cs2, _, _ = _build(ltype, default, hist, foreign, probe=specs)
+            transitions += len(hist) * (2 if foreign else 1) * 2
             answers = []
             for si, (t, spec) in enumerate(specs):
                 got = _lookup(cs, T, spec)
                 exp = _ref(hist, pats, spec, default)
-                evals += 1
+                evals += 2
+                got2 = _lookup(cs2, T, spec)
+                if got2 != got:
+                    viols.append({'kind': 'lookup-depends-on-earlier-lookups', 'sig': 'lookup-depends-on-earlier-lookups',
+                                  'msg': f'{ltype} default={default} history={list(hist)} spec={spec}: {got} on a spec that was never queried before, '
+                                         f'{got2} when every spec was also looked up after each registration',
+                                  'case': dict(case, history=list(hist))})
                 outcomes.add(f'{got[0]}:{got[1] if got[0] != "fn" else ("U" if got[1] == "U" else "constrained")}')
                 if hist:
                     nontrivial.add(f'{ltype}/{default}/{foreign}/{"".join(hist)}/{si}')
